@@ -605,6 +605,9 @@ class Runner:
                     st["clock_back"] += 1
                     a["clock_went_back"] = True
                 last_now = now
+                if ran not in ("0", "-"):
+                    # another process ran: only this step's check_expired_timeouts concerns pid 0
+                    evs.append("(tick %d)" % now)
                 for h in helpers:
                     k = int(h[1])
                     if h[2][0] == "ok":
